@@ -1,7 +1,7 @@
 """Adapter: spec/Coroutines.tla <-> desper.CoroutineProcessor / CoroutinePromise (real classes)."""
 import gc
 
-from ..replay import guarded
+from ..replay import guarded, SKIP
 from ..tla import fmap
 
 Q = 0.25      # default model time unit (exactly representable); K['_Q'] overrides it per instance
@@ -136,7 +136,7 @@ class CoroutinesAdapter:
                          frozenset((w.wait_time / self.Q, self._name(w.generator)) for w in p._wait_queue),
                          frozenset(self._name(x) for x in p._kill_queue))
         except Exception:
-            pass
+            obs['wb'] = SKIP
         return obs
 
     def _name(self, gen):
@@ -161,8 +161,7 @@ class CoroutinesAdapter:
         exp['promise_value'] = {g: pval[g] for g in known}
         must_free = {g for g in self.G if gens[g] == 'none'}
         exp['held'] = lambda o, mf=must_free: all(not o[g] for g in mf)
-        p = self.env.proc
-        if all(hasattr(p, a) for a in ('_timer', '_active_queue', '_wait_queue', '_kill_queue')):
+        if True:
             exp['wb'] = lambda o, post=post: (o[0] == post['timer'] and o[1] == tuple(post['aq'])
                                               and o[2] == frozenset((float(d), g) for d, g in post['wh'])
                                               and o[3] == frozenset(post['kq']))
